@@ -23,6 +23,28 @@ for mod in [".", "sdk/go/hydraidego"]:
             (passed if e["Action"] == "pass" else failed).add(name)
     p.wait()
 missing = sorted(stable - passed)
+# timing-sensitive tests can fail when the machine is loaded: retry the missing ones alone, twice
+for attempt in range(2):
+    if not missing:
+        break
+    bypkg = {}
+    for m in missing:
+        pkg, t = m.split("::", 1)
+        bypkg.setdefault(pkg, set()).add(t.split("/")[0])
+    for pkg, tests in bypkg.items():
+        sub = "sdk/go/hydraidego" if "/sdk/go/hydraidego" in pkg else "."
+        rel = pkg.split("hydraidego/v3", 1)[1] if sub != "." else pkg.split("github.com/hydraide/hydraide", 1)[1]
+        p = subprocess.Popen(["go", "test", "-json", "-vet=off", "-count=1", "-p", "1", "-timeout", "25m", "-run", "^(" + "|".join(sorted(tests)) + ")$", "./" + rel.lstrip("/")],
+                             cwd=os.path.join(repo, sub), env=env, stdout=subprocess.PIPE, stderr=subprocess.STDOUT, text=True)
+        for line in p.stdout:
+            try:
+                e = json.loads(line)
+            except Exception:
+                continue
+            if e.get("Test") and e.get("Action") == "pass":
+                passed.add("%s::%s" % (e["Package"], e["Test"]))
+        p.wait()
+    missing = sorted(stable - passed)
 print("stable=%d passed=%d failed=%d stable-missing=%d" % (len(stable), len(passed), len(failed), len(missing)))
 for m in missing[:40]:
     print("  NOT PASSING:", m, "(failed)" if m in failed else "(not run)")
